@@ -11,7 +11,7 @@ from vf.zoo import unit, vec
 
 ID = "C04"
 LEVEL = "exploration"
-BUDGET = {"quick": 12800, "thorough": 128000}
+BUDGET = {"quick": 25600, "thorough": 256000}
 MIN_NONTRIVIAL = {"quick": 100, "thorough": 1000}
 RULE = (
     "Hypothesis draws constrained systems (1-3 constraints, linear / quadric / ridge, all constant metric types, "
